@@ -57,7 +57,8 @@ class Attr:
         self.name, self.value, self.ns, self.res_id = name, value, ns, res_id
 
 
-TYPES = {"str": 3, "int": 0x10, "hex": 0x11, "bool": 0x12, "ref": 1, "dimen": 5, "float": 4, "attr": 2}
+TYPES = {"str": 3, "int": 0x10, "hex": 0x11, "bool": 0x12, "ref": 1, "dimen": 5, "float": 4, "attr": 2,
+         "fraction": 6, "argb8": 0x1C, "rgb8": 0x1D, "argb4": 0x1E, "rgb4": 0x1F}
 
 
 def write(root, namespaces=(("android", ANDROID_NS),), utf8=False, attr_size=20):
